@@ -1,10 +1,598 @@
 package verifsim
 
-// Sched is the cooperative scheduler for concurrent profiles (filled in by sched_impl.go).
-type Sched struct{}
+import (
+	"crypto/sha256"
+	"encoding/hex"
+	"fmt"
+	"runtime"
+	"sort"
+	"strconv"
+	"strings"
+	"sync"
+	"testing/synctest"
+	"time"
+)
 
-func (s *Sched) acquire(owner any, kind string, obj any) {}
-func (s *Sched) release(owner any, kind string, obj any) {}
-func (s *Sched) point(owner any, name string)            {}
-func (s *Sched) goStart(owner any, name string)          {}
-func (s *Sched) access(owner any, obj string, write bool) {}
+// Cooperative scheduler for concurrent profiles. Tasks are real goroutines; exactly one is
+// released at a time and it gives control back only inside a hook (Acquire, Point, Go) or by
+// finishing. Which task runs next is a scenario decision (explicit schedule, else PRNG while
+// generating, else the default policy "stay on the current task, otherwise lowest id").
+
+type taskState int
+
+const (
+	tsParked   taskState = iota // at a Point / Go / initial park: runnable
+	tsWaitLock                  // waiting for a modelled lock
+	tsRunning                   // released by the scheduler
+	tsDone
+)
+
+type lockKey struct {
+	kind string
+	obj  any
+}
+
+type Task struct {
+	ID      int
+	Name    string
+	gid     uint64
+	state   taskState
+	wild    bool // released, not yielded, blocked outside the hooks (timer, channel, wait group)
+	at      string
+	wantKey lockKey
+	wantAt  string
+	wake    chan struct{}
+	held    map[lockKey]string // lock -> call site
+	owner   any
+	dead    bool // belongs to a crashed epoch: never released again
+	steps   int
+	auto    bool
+	Cur     any // executor scratch: the operation the task is executing
+}
+
+type lockInfo struct {
+	holder *Task
+	site   string
+}
+
+type raceAccess struct {
+	task  *Task
+	write bool
+	locks map[lockKey]bool
+	site  string
+}
+
+type Sched struct {
+	mu       sync.Mutex
+	tasks    []*Task
+	byGid    map[uint64]*Task
+	locks    map[lockKey]*lockInfo
+	current  *Task
+	yieldCh  chan struct{}
+	active   bool
+	preempt  map[string]bool // lock kinds whose Acquire always yields
+	schedule []int           // explicit choices (task ids), consumed at choice points
+	pos      int
+	gen      *G      // non-nil: draw choices and append them to Chosen
+	pPreempt float64 // preemption probability while generating
+	Chosen   []int
+	trace    []byte
+	Steps    int
+	MaxSteps int
+	StepCost time.Duration
+	Grace    time.Duration // how long a released task may block outside hooks before others run
+	IdleMax  time.Duration // simulated time without progress that counts as a hang
+	Stats    map[string]int64
+	lockPairs map[string]bool // observed acquisition order pairs "siteA>siteB"
+	deadOwners map[any]bool
+	// hooks for the executor
+	OnPoint  func(t *Task, name string) // called in the task's goroutine before it parks
+	accLog   map[string][]raceAccess
+	Races    []string
+	names    map[any]string // display names for lock objects
+	Violation *Violation
+}
+
+func NewSched() *Sched {
+	return &Sched{byGid: map[uint64]*Task{}, locks: map[lockKey]*lockInfo{}, yieldCh: make(chan struct{}, 1),
+		preempt: map[string]bool{"dataset.write": true, "dsm.lock": true, "raffle.mu": false}, MaxSteps: 20000,
+		StepCost: 1, Grace: time.Microsecond, IdleMax: 48 * time.Hour, Stats: map[string]int64{}, lockPairs: map[string]bool{},
+		deadOwners: map[any]bool{}, accLog: map[string][]raceAccess{}, names: map[any]string{}}
+}
+
+func curGid() uint64 {
+	var buf [64]byte
+	n := runtime.Stack(buf[:], false)
+	// "goroutine 123 ["
+	s := string(buf[:n])
+	s = strings.TrimPrefix(s, "goroutine ")
+	if i := strings.IndexByte(s, ' '); i > 0 {
+		id, _ := strconv.ParseUint(s[:i], 10, 64)
+		return id
+	}
+	return 0
+}
+
+func callSite(skip int) string {
+	// first frame outside verifhook / verifsim
+	pcs := make([]uintptr, 12)
+	n := runtime.Callers(skip, pcs)
+	frames := runtime.CallersFrames(pcs[:n])
+	for {
+		f, more := frames.Next()
+		if !strings.Contains(f.Function, "/verifhook.") && !strings.Contains(f.Function, "/verifsim.") {
+			fn := f.Function
+			if i := strings.LastIndex(fn, "/"); i >= 0 {
+				fn = fn[i+1:]
+			}
+			return fn
+		}
+		if !more {
+			return "?"
+		}
+	}
+}
+
+func (s *Sched) ev(format string, args ...any) {
+	s.trace = append(s.trace, fmt.Sprintf(format, args...)...)
+	s.trace = append(s.trace, '\n')
+}
+
+func (s *Sched) TraceHash() string {
+	h := sha256.Sum256(s.trace)
+	return hex.EncodeToString(h[:8])
+}
+
+func (s *Sched) TraceTail(n int) string {
+	lines := strings.Split(strings.TrimSpace(string(s.trace)), "\n")
+	if len(lines) > n {
+		lines = lines[len(lines)-n:]
+	}
+	return strings.Join(lines, "\n")
+}
+
+func (s *Sched) notify() {
+	select {
+	case s.yieldCh <- struct{}{}:
+	default:
+	}
+}
+
+// Spawn creates a task running fn. Must be called from inside the bubble.
+func (s *Sched) Spawn(name string, owner any, fn func()) *Task {
+	t := &Task{Name: name, wake: make(chan struct{}), held: map[lockKey]string{}, owner: owner, state: tsParked, at: "start"}
+	s.mu.Lock()
+	t.ID = len(s.tasks)
+	s.tasks = append(s.tasks, t)
+	s.mu.Unlock()
+	ready := make(chan struct{})
+	go func() {
+		t.gid = curGid()
+		s.mu.Lock()
+		s.byGid[t.gid] = t
+		s.mu.Unlock()
+		close(ready)
+		<-t.wake
+		defer func() {
+			s.mu.Lock()
+			t.state = tsDone
+			delete(s.byGid, t.gid)
+			s.mu.Unlock()
+			s.notify()
+		}()
+		fn()
+	}()
+	<-ready
+	return t
+}
+
+func (s *Sched) lookup(owner any, auto bool, name string) *Task {
+	gid := curGid()
+	s.mu.Lock()
+	t := s.byGid[gid]
+	if t == nil && auto && s.active {
+		t = &Task{Name: name, wake: make(chan struct{}), held: map[lockKey]string{}, owner: owner, state: tsRunning, gid: gid, auto: true}
+		t.ID = len(s.tasks)
+		s.tasks = append(s.tasks, t)
+		s.byGid[gid] = t
+		if s.deadOwners[owner] {
+			t.dead = true
+		}
+	}
+	s.mu.Unlock()
+	return t
+}
+
+// park blocks the calling task until the scheduler releases it again.
+func (s *Sched) park(t *Task) {
+	s.notify()
+	<-t.wake
+}
+
+func (s *Sched) point(owner any, name string) {
+	if !s.active {
+		return
+	}
+	t := s.lookup(owner, true, "auto:"+name)
+	if t == nil {
+		return
+	}
+	if f := s.OnPoint; f != nil {
+		f(t, name)
+	}
+	s.mu.Lock()
+	t.state = tsParked
+	t.at = name
+	t.wild = false
+	s.mu.Unlock()
+	s.park(t)
+}
+
+func (s *Sched) goStart(owner any, name string) {
+	if !s.active {
+		return
+	}
+	t := s.lookup(owner, true, name)
+	if t == nil {
+		return
+	}
+	s.mu.Lock()
+	t.state = tsParked
+	t.at = "go:" + name
+	t.wild = false
+	s.mu.Unlock()
+	s.park(t)
+}
+
+func (s *Sched) acquire(owner any, kind string, obj any) {
+	if !s.active {
+		return
+	}
+	t := s.lookup(owner, true, "auto:acquire:"+kind)
+	if t == nil {
+		return
+	}
+	key := lockKey{kind, obj}
+	site := callSite(4)
+	s.mu.Lock()
+	li := s.locks[key]
+	if li == nil && !s.preempt[kind] {
+		s.locks[key] = &lockInfo{holder: t, site: site}
+		s.noteOrder(t, site)
+		t.held[key] = site
+		s.mu.Unlock()
+		return
+	}
+	t.state = tsWaitLock
+	t.wantKey = key
+	t.wantAt = site
+	t.at = "acquire:" + kind
+	t.wild = false
+	s.mu.Unlock()
+	s.park(t)
+	// the scheduler granted the lock before releasing us
+}
+
+func (s *Sched) noteOrder(t *Task, site string) {
+	for _, hs := range t.held {
+		s.lockPairs[hs+">"+site] = true
+	}
+}
+
+func (s *Sched) release(owner any, kind string, obj any) {
+	if !s.active {
+		return
+	}
+	t := s.lookup(owner, false, "")
+	key := lockKey{kind, obj}
+	s.mu.Lock()
+	if li := s.locks[key]; li != nil && (t == nil || li.holder == t) {
+		delete(s.locks, key)
+		if t != nil {
+			delete(t.held, key)
+		}
+	}
+	s.mu.Unlock()
+}
+
+func (s *Sched) access(owner any, obj string, write bool) {
+	if !s.active {
+		return
+	}
+	t := s.lookup(owner, false, "")
+	if t == nil {
+		return
+	}
+	site := callSite(4)
+	s.mu.Lock()
+	defer s.mu.Unlock()
+	ls := map[lockKey]bool{}
+	for k := range t.held {
+		ls[k] = true
+	}
+	for _, a := range s.accLog[obj] {
+		if a.task == t || (!a.write && !write) {
+			continue
+		}
+		if a.task.state == tsDone {
+			continue
+		}
+		common := false
+		for k := range ls {
+			if a.locks[k] {
+				common = true
+				break
+			}
+		}
+		if !common {
+			w1, w2 := "read", "read"
+			if a.write {
+				w1 = "write"
+			}
+			if write {
+				w2 = "write"
+			}
+			r := fmt.Sprintf("%s: %s@%s / %s@%s", obj, w1, a.site, w2, site)
+			dup := false
+			for _, x := range s.Races {
+				if x == r {
+					dup = true
+				}
+			}
+			if !dup {
+				s.Races = append(s.Races, r)
+			}
+		}
+	}
+	// keep the latest access per task
+	l := s.accLog[obj]
+	kept := l[:0]
+	for _, a := range l {
+		if a.task != t || a.write != write {
+			kept = append(kept, a)
+		}
+	}
+	s.accLog[obj] = append(kept, raceAccess{task: t, write: write, locks: ls, site: site})
+}
+
+
+// KillOwner marks every task of an owner (a crashed hub instance) dead.
+func (s *Sched) KillOwner(owner any) {
+	s.mu.Lock()
+	s.deadOwners[owner] = true
+	for _, t := range s.tasks {
+		if t.owner == owner && t.state != tsDone {
+			t.dead = true
+		}
+	}
+	for k, li := range s.locks {
+		if li.holder.dead {
+			delete(s.locks, k)
+		}
+	}
+	s.mu.Unlock()
+}
+
+func (s *Sched) runnable() []*Task {
+	var out []*Task
+	for _, t := range s.tasks {
+		if t.dead || t.state == tsDone || t.state == tsRunning {
+			continue
+		}
+		if t.state == tsWaitLock {
+			if li := s.locks[t.wantKey]; li != nil {
+				continue
+			}
+		}
+		out = append(out, t)
+	}
+	return out
+}
+
+func (s *Sched) lockName(k lockKey) string {
+	if n, ok := s.names[k.obj]; ok {
+		return k.kind + ":" + n
+	}
+	return k.kind
+}
+
+// SetName gives a lock object (e.g. a *Dataset) a display name for traces.
+func (s *Sched) SetName(obj any, name string) { s.names[obj] = name }
+
+// deadlockDescription finds a cycle in the wait-for graph (task -> holder of the lock it wants).
+// The signature lists the distinct "waiting site>holding site" edges of the cycle.
+func (s *Sched) deadlockDescription() (sig, msg string) {
+	waiting := map[*Task]*Task{}
+	for _, t := range s.tasks {
+		if t.dead || t.state != tsWaitLock {
+			continue
+		}
+		if li := s.locks[t.wantKey]; li != nil {
+			waiting[t] = li.holder
+		}
+	}
+	var parts []string
+	for _, t := range s.tasks {
+		if h, ok := waiting[t]; ok {
+			li := s.locks[t.wantKey]
+			parts = append(parts, fmt.Sprintf("%s waits for %s at %s, held by %s since %s", t.Name, s.lockName(t.wantKey), t.wantAt, h.Name, li.site))
+		}
+	}
+	// follow holders from each waiting task until a task repeats
+	var cycle []*Task
+	for _, start := range s.tasks {
+		if _, ok := waiting[start]; !ok {
+			continue
+		}
+		seen := map[*Task]int{}
+		var path []*Task
+		cur := start
+		for {
+			if i, ok := seen[cur]; ok {
+				cycle = path[i:]
+				break
+			}
+			seen[cur] = len(path)
+			path = append(path, cur)
+			nxt, ok := waiting[cur]
+			if !ok {
+				break
+			}
+			cur = nxt
+		}
+		if cycle != nil {
+			break
+		}
+	}
+	edges := map[string]bool{}
+	for _, t := range cycle {
+		li := s.locks[t.wantKey]
+		e := t.wantAt + ">" + li.site + ":" + t.wantKey.kind
+		if s.names[t.wantKey.obj] == "core.Dataset" {
+			e += "@core.Dataset"
+		}
+		edges[e] = true
+	}
+	var el []string
+	for e := range edges {
+		el = append(el, e)
+	}
+	sort.Strings(el)
+	if len(el) == 0 {
+		el = []string{"no-cycle"}
+	}
+	return strings.Join(el, ","), strings.Join(parts, "; ")
+}
+
+// Run drives the tasks until all are done, a deadlock / hang is found or the step budget ends.
+// It must be called from the bubble's main goroutine.
+func (s *Sched) Run() {
+	s.active = true
+	defer func() { s.active = false }()
+	idleSince := time.Now()
+	for s.Steps < s.MaxSteps {
+		synctest.Wait()
+		s.mu.Lock()
+		// a released task that has not yielded is blocked outside the hooks
+		if c := s.current; c != nil && c.state == tsRunning && !c.wild {
+			s.mu.Unlock()
+			// give it a short grace period on the fake clock (e.g. the 1 ns sleep in StoreEntities)
+			select {
+			case <-s.yieldCh:
+				continue
+			case <-time.After(s.Grace):
+			}
+			s.mu.Lock()
+			if c.state == tsRunning {
+				c.wild = true
+				s.Stats["wild_blocks"]++
+			}
+			s.mu.Unlock()
+			continue
+		}
+		run := s.runnable()
+		alive, wild := 0, 0
+		for _, t := range s.tasks {
+			if t.dead || t.state == tsDone {
+				continue
+			}
+			alive++
+			if t.state == tsRunning {
+				wild++
+			}
+		}
+		if len(run) == 0 {
+			if alive == 0 {
+				s.mu.Unlock()
+				return
+			}
+			if wild > 0 {
+				s.mu.Unlock()
+				// let the fake clock move to the next timer
+				select {
+				case <-s.yieldCh:
+					idleSince = time.Now()
+				case <-time.After(time.Minute):
+					if time.Since(idleSince) > s.IdleMax {
+						s.mu.Lock()
+						var names []string
+						for _, t := range s.tasks {
+							if !t.dead && t.state == tsRunning {
+								names = append(names, t.Name+"@"+t.at)
+							}
+						}
+						s.mu.Unlock()
+						sort.Strings(names)
+						s.Violation = &Violation{Oracle: "hang", Signature: "hang:" + strings.Join(names, ","),
+							Message: fmt.Sprintf("no progress for %v of simulated time; blocked tasks: %v\nlast events:\n%s", s.IdleMax, names, s.TraceTail(15))}
+						return
+					}
+				}
+				continue
+			}
+			sig, msg := s.deadlockDescription()
+			s.mu.Unlock()
+			s.Violation = &Violation{Oracle: "deadlock", Signature: "deadlock:" + sig, Message: msg + "\nlast events:\n" + s.TraceTail(15)}
+			return
+		}
+		idleSince = time.Now()
+		t := s.choose(run)
+		if t.state == tsWaitLock {
+			s.locks[t.wantKey] = &lockInfo{holder: t, site: t.wantAt}
+			s.noteOrder(t, t.wantAt)
+			t.held[t.wantKey] = t.wantAt
+			s.ev("%s acquires %s at %s", t.Name, s.lockName(t.wantKey), t.wantAt)
+		} else {
+			s.ev("%s runs from %s", t.Name, t.at)
+		}
+		if s.current != nil && s.current != t && s.current.state != tsDone {
+			s.Stats["preemptions"]++
+		}
+		t.state = tsRunning
+		t.wild = false
+		t.steps++
+		s.current = t
+		s.Steps++
+		s.mu.Unlock()
+		time.Sleep(s.StepCost)
+		t.wake <- struct{}{}
+	}
+	s.Stats["budget_exhausted"]++
+}
+
+// choose picks the next task among the runnable ones.
+func (s *Sched) choose(run []*Task) *Task {
+	def := run[0]
+	for _, t := range run {
+		if t == s.current {
+			def = t
+		}
+	}
+	if len(run) == 1 {
+		return def
+	}
+	s.Stats["choice_points"]++
+	if s.pos < len(s.schedule) {
+		want := s.schedule[s.pos]
+		s.pos++
+		for _, t := range run {
+			if t.ID == want {
+				s.Chosen = append(s.Chosen, t.ID)
+				return t
+			}
+		}
+		s.Stats["schedule_misses"]++
+		s.Chosen = append(s.Chosen, def.ID)
+		return def
+	}
+	if s.gen != nil {
+		pick := def
+		if s.gen.P(s.pPreempt) {
+			pick = run[s.gen.Intn(len(run))]
+		}
+		s.Chosen = append(s.Chosen, pick.ID)
+		return pick
+	}
+	s.Chosen = append(s.Chosen, def.ID)
+	return def
+}
